@@ -22,6 +22,13 @@ class Return(Exception):
         self.v = v
 
 
+class Break(Exception):
+    """`break 'label value` out of a labelled block"""
+    def __init__(self, to, v):
+        self.to = to
+        self.v = v
+
+
 class Panic(Exception):
     def __init__(self, msg=""):
         self.msg = msg
@@ -56,6 +63,28 @@ class Enum:
     def __repr__(self):
         short = self.path.split("::")[-1]
         return short if not self.args else "%s(%s)" % (short, ", ".join(map(repr, self.args)))
+
+    @property
+    def short(self):
+        return self.path.split("::")[-1]
+
+
+class StructVal:
+    """a struct(-variant) literal with named fields"""
+    __slots__ = ("path", "fields")
+
+    def __init__(self, path, fields):
+        self.path = path
+        self.fields = dict(fields)
+
+    def __eq__(self, o):
+        return isinstance(o, StructVal) and o.path == self.path and o.fields == self.fields
+
+    def __hash__(self):
+        return hash((self.path, tuple(sorted(self.fields))))
+
+    def __repr__(self):
+        return "%s{%s}" % (self.path.split("::")[-1], ", ".join("%s: %r" % kv for kv in self.fields.items()))
 
     @property
     def short(self):
@@ -186,6 +215,10 @@ class Interp:
             return all(self.match(q, x, env) for q, x in zip(pats, v))
         if k == "ts":
             path = p["p"].get("did") or p["p"].get("n")
+            if isinstance(v, StructVal):
+                if v.path == path:
+                    raise Unrecognised("tuple-struct pattern on struct value %r" % (v,))
+                return False
             if not isinstance(v, Enum):
                 raise Unrecognised("tuple-struct pattern %s on %r" % (path, v))
             if v.path != path:
@@ -197,6 +230,15 @@ class Interp:
             return all(self.match(q, x, env) for q, x in zip(p["a"], v.args))
         if k == "struct":
             path = p["p"].get("did") or p["p"].get("n")
+            if isinstance(v, StructVal):
+                if v.path != path:
+                    return False
+                for name, q in p["f"]:
+                    if name not in v.fields:
+                        raise Unrecognised("struct pattern field %s" % name)
+                    if not self.match(q, v.fields[name], env):
+                        return False
+                return True
             if not isinstance(v, Enum):
                 raise Unrecognised("struct pattern on %r" % (v,))
             if v.path != path:
@@ -317,7 +359,22 @@ class Interp:
     def ev_ref(self, e, env):
         return self.ev(e["e"], env)
 
+    def ev_break(self, e, env):
+        if "to" not in e:
+            raise Unrecognised("break without a resolved target")
+        raise Break(e["to"], self.ev(e["e"], env) if "e" in e else ())
+
     def ev_block(self, e, env):
+        if "lbl" in e:
+            try:
+                return self.ev_block_body(e, env)
+            except Break as b:
+                if b.to == e["lbl"]:
+                    return b.v
+                raise
+        return self.ev_block_body(e, env)
+
+    def ev_block_body(self, e, env):
         env = dict(env) if e["s"] else env
         for s in e["s"]:
             sk = s["k"]
@@ -461,6 +518,8 @@ class Interp:
             if o == ">>":
                 return l >> r
         if isinstance(l, bool) and isinstance(r, bool):
+            if o == "^":
+                return l != r
             if o == "&":
                 return l and r
             if o == "|":
@@ -500,6 +559,8 @@ class Interp:
             return v[int(n)]
         if isinstance(v, Enum) and n.isdigit():
             return v.args[int(n)]
+        if isinstance(v, StructVal) and n in v.fields:
+            return v.fields[n]
         r = self.dom.field(self, v, n)
         if r is None:
             raise Unrecognised("field .%s of %r" % (n, v))
@@ -509,7 +570,13 @@ class Interp:
         return ("closure", e, dict(env))
 
     def ev_struct(self, e, env):
-        raise Unrecognised("struct literal")
+        if "base" in e:
+            raise Unrecognised("struct literal with ..base")
+        path = e["p"].get("did") or e["p"].get("n")
+        fields = [(name, self.ev(x, env)) for name, x in e["f"]]
+        if all(name.isdigit() for name, _ in fields) and fields:
+            return Enum(path, [v for _, v in sorted(fields, key=lambda kv: int(kv[0]))])
+        return StructVal(path, fields)
 
     def ev_loop(self, e, env):
         raise Beyond("loop")
@@ -556,6 +623,8 @@ def enumerate_runs(make_interp, run):
             out = ("beyond", b.what)
         except Infeasible:
             out = ("infeasible", "")
+        except Break:
+            out = ("unrecognised", "break out of a block that is not interpreted")
         except Unrecognised as u:
             out = ("unrecognised", str(u))
         yield list(it.trace), out
